@@ -13,6 +13,8 @@ CONSTANTS
   ClassComments <- NoComment
   TopAlpha <- FTTops
   MaxTops = 1
+  AliasAlpha <- None
+  MaxAliases = 0
   CmdKinds <- FTCmds
 INVARIANT SafeVis
 INVARIANT SafeAccess
